@@ -175,9 +175,17 @@ def parse_template(path):
                 elif d == 'include':
                     ipath = os.path.join(os.path.dirname(path), toks[1])
                     u2, sub = parse_template(ipath)
+                    opaque = []
+                    if 'opaque' in toks:
+                        opaque = [x for t in toks[toks.index('opaque') + 1:] for x in t.split(',') if x]
                     for nd in sub:
                         if nd[0] == 'text':
-                            out.append(('text', nd[1], i + 1))
+                            ln2 = nd[1]
+                            mm = re.match(r'\s*pub (?:closed|open) spec fn (\w+)\b', ln2)
+                            if mm and mm.group(1) in opaque:
+                                # this unit sees the function only through contracts proved elsewhere: hide its body from the solver
+                                out.append(('text', '#[verifier::opaque]', i + 1))
+                            out.append(('text', ln2, i + 1))
                         else:
                             out.append(nd)
                 elif d == 'use-contract':
